@@ -365,6 +365,14 @@ def check_c07(chk, args):
                 if not ok:
                     chk.violation('C07.faithful', 'the printed %s does not reconstruct an equal object: %r' % (kind, desc), desc)
     builtin_totality(chk)
+    # spec -> code: Printers!PStd (the container printers of pretty_stdlib.py) predicts the exact text (DRIFT only)
+    from checks import values_checks as VC
+    bound = []
+    for kind, obj in instances(rng, q):
+        if kind in ('OrderedDict', 'deque', 'Counter', 'mappingproxy', 'defaultdict', 'ChainMap', 'SimpleNamespace', 'namedtuple',
+                    'exception'):
+            bound += [obj, [obj, 1], {'k': obj}]
+    VC.printers_binding(chk, bound, name='stdlib_containers', per_value=2 if q else 4)
     chk.cov['rule'] = ('(a) datetime / time / timedelta descriptors from the boundary grids of Stdlib.tla (emitted by TLC), '
                        'printed keyword lists validated by TLC against the denotation; (b) instances of every '
                        'standard-library type with a bundled printer (aware datetimes with fixed / named / pytz zones and '
